@@ -103,6 +103,7 @@ class Sink:
     def __init__(self, name: str, log: list) -> None:
         self._name = name
         self._log = log
+        self._alive = False      # thread handles: set by a scenario
 
     def __getattr__(self, meth: str) -> Any:
         if meth.startswith('__'):
@@ -116,7 +117,9 @@ class Sink:
             else:
                 self._log.append((kind,) + tuple(args))
             if meth == 'is_alive':
-                return False
+                return self._alive
+            if meth == 'join':
+                self._alive = False
             return None
         return call
 
